@@ -119,7 +119,7 @@ def eval_doc(args):
 
 
 def run(tier, seed, open_findings):
-    rng = random.Random(seed); n = 200 if tier == 'thorough' else 60
+    rng = random.Random(seed); n = 4000 if tier == 'thorough' else 60
     docs = [gen(rng) for _ in range(n)]
     jobs = [(ver, d) for d in docs for ver in ('1.0', '1.1')]
     res = pmap(eval_doc, jobs)
